@@ -65,6 +65,7 @@ type stats struct {
 	ranges     int
 	jsonAttrs  int
 	jsonBlocks int
+	evalSkip   bool
 	dur        time.Duration
 }
 
@@ -74,6 +75,8 @@ type checker struct {
 	// UTF-8: json/structure.go documents those positions as approximate)
 	noDiagRanges bool
 	jsonApprox   bool
+	nilNode      bool
+	evalOK       bool // see evalSafe
 
 	src      []byte
 	entry    int
@@ -98,7 +101,12 @@ func (k *checker) report(sig, what string, detail map[string]any) {
 
 func (k *checker) panicFinding(phase string, pv any, stack string) {
 	k.st.panicked = true
-	sig := lib.PanicSig(pv, stack)
+	// the signature keeps the class of the panic, not the values it prints
+	msg := fmt.Sprint(pv)
+	if i := strings.Index(msg, "[]"); i > 0 {
+		msg = msg[:i]
+	}
+	sig := fmt.Sprintf("panic:%s@%s", lib.Classify(msg), lib.TopHavocFrames(stack, 1))
 	k.report(sig, fmt.Sprintf("%s: %s panicked: %v", entryNames[k.entry], phase, pv),
 		map[string]any{"phase": phase, "panic": fmt.Sprint(pv), "stack": trimStack(stack)})
 }
@@ -211,27 +219,27 @@ func (k *checker) checkTokens(toks hclsyntax.Tokens) {
 		s, e := t.Range.Start.Byte, t.Range.End.Byte
 		tn := t.Type.String()
 		if !(0 <= s && s <= e && e <= len(src)) {
-			k.report("token:range-outside-input:"+tn+":"+mode,
+			k.report("token:range-outside-input:"+mode,
 				fmt.Sprintf("%s: token %d (%s) has range %s, input has %d bytes", en, i, tn, rstr(t.Range), len(src)),
 				map[string]any{"token_index": i, "range": rstr(t.Range)})
 			return
 		}
 		if s < prevEnd {
-			k.report("token:overlap-or-disorder:"+tn+":"+mode,
+			k.report("token:overlap-or-disorder:"+mode,
 				fmt.Sprintf("%s: token %d (%s) starts at %d, before the end %d of what precedes it", en, i, tn, s, prevEnd),
 				map[string]any{"token_index": i, "range": rstr(t.Range), "prev_end": prevEnd})
 			return
 		}
 		for j := prevEnd; j < s; j++ {
 			if !isBlank(src[j]) {
-				k.report("token:gap-not-blank:before-"+tn+":"+mode,
+				k.report("token:gap-not-blank:"+mode,
 					fmt.Sprintf("%s: input byte %d (0x%02x) is covered by no token: gap [%d,%d) before token %d (%s)", en, j, src[j], prevEnd, s, i, tn),
 					map[string]any{"token_index": i, "gap": fmt.Sprintf("[%d,%d)", prevEnd, s), "byte": src[j]})
 				return
 			}
 		}
 		if !bytes.Equal(t.Bytes, src[s:e]) {
-			k.report("token:bytes-differ:"+tn+":"+mode,
+			k.report("token:bytes-differ:"+mode,
 				fmt.Sprintf("%s: token %d (%s) range %s carries %q, the input there is %q", en, i, tn, rstr(t.Range), clip(t.Bytes), clip(src[s:e])),
 				map[string]any{"token_index": i, "range": rstr(t.Range), "token_bytes_hex": fmt.Sprintf("%x", clip(t.Bytes))})
 			return
@@ -350,6 +358,7 @@ func (w *walker) Enter(n hclsyntax.Node) hcl.Diagnostics {
 	name := nodeTypeName(n)
 	if isNilNode(n) {
 		// a nil child would make Walk itself dereference nil; report what we can
+		k.nilNode = true
 		k.report("tree:nil-node:"+name+":"+k.status(), entryNames[k.entry]+": the tree contains a nil "+name+" node", nil)
 		w.stack = append(w.stack, frame{group: true})
 		return nil
@@ -439,6 +448,9 @@ func (k *checker) walkTree(root hclsyntax.Node) {
 	}
 	w := &walker{k: k}
 	if pv, st := lib.Guard(func() { hclsyntax.Walk(root, w) }); pv != nil {
+		if k.nilNode && strings.Contains(fmt.Sprint(pv), "nil pointer") {
+			return // consequence of the nil node already reported
+		}
 		k.panicFinding("hclsyntax.Walk over the returned tree", pv, st)
 	}
 }
@@ -467,6 +479,10 @@ var startPos = hcl.Pos{Line: 1, Column: 1, Byte: 0}
 // runEntry runs one entry point of the real code on src and applies the whole oracle.
 func runEntry(entry int, src []byte) *checker {
 	k := &checker{src: src, entry: entry}
+	if entry >= eParseConfig {
+		k.evalOK = evalSafe(src)
+	}
+	k.st.evalSkip = entry >= eParseConfig && !k.evalOK
 	t0 := time.Now()
 	switch entry {
 	case eLexConfig, eLexExpression, eLexTemplate:
@@ -515,7 +531,7 @@ func runEntry(entry int, src []byte) *checker {
 			return k
 		}
 		k.walkTree(body)
-		if k.st.errFree && len(k.findings) == 0 {
+		if k.st.errFree && len(k.findings) == 0 && k.evalOK {
 			k.useConfig(f, body)
 		}
 
@@ -545,7 +561,7 @@ func runEntry(entry int, src []byte) *checker {
 			return k
 		}
 		k.walkTree(e)
-		if k.st.errFree && len(k.findings) == 0 {
+		if k.st.errFree && len(k.findings) == 0 && k.evalOK {
 			k.useExpr(e, "native")
 		}
 
@@ -565,7 +581,7 @@ func runEntry(entry int, src []byte) *checker {
 			return k
 		}
 		k.checkTraversal(tr)
-		if k.st.errFree && len(k.findings) == 0 {
+		if k.st.errFree && len(k.findings) == 0 && k.evalOK {
 			k.useTraversal(tr)
 		}
 
